@@ -6,6 +6,7 @@ import (
 	"fmt"
 	"io/ioutil"
 	"os"
+	"path/filepath"
 	"strings"
 	"sync"
 	"time"
@@ -137,12 +138,27 @@ func init() {
 			Rounds int    `json:"rounds"`
 			Env    string `json:"env"`
 			Seed   int    `json:"seed"`
+			Loader string `json:"loader"` // "" = MemoryLoader, "fs" = FilesystemLoader
 			Gate   bool   `json:"gate"` // schedule: every caller of a round is inside Execute (three includes deep) at the same time
 		}
 		if err := json.Unmarshal(raw, &c); err != nil {
 			return nil, err
 		}
-		loader := &stick.MemoryLoader{Templates: concTemplates}
+		var loader stick.Loader = &stick.MemoryLoader{Templates: concTemplates}
+		if c.Loader == "fs" {
+			// the library's own filesystem loader, on a directory holding the same templates
+			dir, err := ioutil.TempDir("", "verif-conc-")
+			if err != nil {
+				return nil, err
+			}
+			defer os.RemoveAll(dir)
+			for name, src := range concTemplates {
+				if err := ioutil.WriteFile(filepath.Join(dir, name), []byte(src), 0644); err != nil {
+					return nil, err
+				}
+			}
+			loader = stick.NewFilesystemLoader(dir)
+		}
 		mk := func(n int) *stick.Env {
 			bar := &barrier{n: n}
 			gate := func(ctx stick.Context, a ...stick.Value) stick.Value {
